@@ -11,6 +11,7 @@ SESSION_FNS = [
  # name, kind(ref|mut), params [(n,t)], ret, label text
  ('local_state','ref',[],'&SessionState','[C13.{w}.state-is-the-sessions] the state the wrapper reports is the state of the session it wraps'),
  ('set_session_stop_reason','mut',[('reason','SessionStopReason')],None,'[C14.{w}.stop-reason-published-in-the-sessions-cell] the stop reason is recorded in the cell of the wrapped session -- the one its handles and links read'),
+ ('abandon_pending_deliveries','mut',[],None,'[C14.{w}.waiters-released-by-the-session] when the engine stops, the sends still waiting on links of the wrapped session are released by it (unit SESSION [C14.session-stop.every-sending-relay-reached])'),
  ('session_stop_reason','ref',[],'&StopArc','[C14.{w}.stop-reason-cell-is-the-sessions]'),
  ('connection_stop_reason','ref',[],'&ConnStopArc','[C14.{w}.connection-stop-cell-is-the-sessions]'),
  ('outgoing_channel','ref',[],'OutgoingChannel','[C11.{w}.channel-is-the-sessions]'),
